@@ -251,11 +251,14 @@ class Interp:
             return max(a, b) if callee == 'std::max' else min(a, b)
         if callee in ('std::move', 'std::forward', 'std::as_const') and len(n['args']) == 1:
             return self.eval(fn, S[n['args'][0]], env)
-        if callee == 'std::optional::has_value' or callee == 'std::optional::operator bool':
+        cs_ = n.get('cs') or ''
+        if cs_ in ('std::optional::has_value', 'std::optional::operator bool') and 'obj' in n:
             v = self.eval(fn, S[n['obj']], env)
             return v is not None
-        if callee == 'std::optional::value':
+        if cs_ == 'std::optional::value' and 'obj' in n:
             return self.eval(fn, S[n['obj']], env)
+        if n['k'] == 'CXXOperatorCallExpr' and cs_ in ('std::optional::operator->', 'std::optional::operator*') and n.get('args'):
+            return self.eval(fn, S[n['args'][0]], env)
         if k in ('CXXConstructExpr', 'CXXTemporaryObjectExpr'):
             cls = n.get('cls', '')
             args = n.get('args', [])
@@ -422,6 +425,9 @@ class Interp:
                 return same if n['op'] == '==' else not same
             if k == 'CXXMemberCallExpr' and 'obj' in n and (last == 'get' or last.startswith('operator ')):
                 return self.eval(fn, S[n['obj']], env)
+        if k in ('CXXConstructExpr', 'CXXTemporaryObjectExpr') and (n.get('cls') or '').startswith(('std::variant', 'std::optional')) and len(n.get('args', [])) <= 1:
+            args = [self.eval(fn, S[a], env) for a in n.get('args', [])]
+            return args[0] if args else None
         if k in ('CXXConstructExpr', 'CXXTemporaryObjectExpr') and (n.get('cls') or '').startswith(('std::shared_ptr', 'std::unique_ptr')):
             args = [self.eval(fn, S[a], env) for a in n.get('args', [])]
             return args[0] if args else None
@@ -605,6 +611,8 @@ class Interp:
             return
         if k == 'CXXForRangeStmt':
             rng = self.eval(fn, S[n['range']], env)
+            if isinstance(rng, Obj) and 'elems' in rng:
+                rng = list(rng['elems'])
             if isinstance(rng, (bytes, bytearray)):
                 rng = list(rng)
             if isinstance(rng, (set, frozenset)):
